@@ -70,7 +70,7 @@ pub fn run(cfg: &Cfg) -> i32 {
     let mut rng = Rng::derive(cfg.seed, 8, shard);
 
     // A. atoms at every length class boundary, alone and inside trees
-    let mut lens: Vec<usize> = vec![0, 1, 2, 0x3e, 0x3f, 0x40, 0x41, 0x1ffe, 0x1fff, 0x2000, 0x2001, 0xffffe, 0xfffff, 0x100000, 0x100001];
+    let mut lens: Vec<usize> = vec![0, 1, 2, 0x3e, 0x3f, 0x40, 0x41, 0x7f, 0x80, 0xff, 0x100, 0x1ffe, 0x1fff, 0x2000, 0x2001, 0x7fff, 0x8000, 0xffff, 0x10000, 0x12345, 0x7ffff, 0x80000, 0xffffe, 0xfffff, 0x100000, 0x100001];
     if cfg.thorough() {
         lens.extend([0x400000usize, 0x7ffffff, 0x8000000]);
     }
